@@ -18,7 +18,8 @@ recognised narrowly by the predicates below and replayed on their witnesses on e
 Correspondence: outputs of the real hooks (dict with key order | instance | error) == model `hun` / `hst`
 (ops HOOKUN / HOOKST), the emitted key list == the model's specification `expectedKeys` (HOOKKEYS),
 `repr(key)` == `pyQuote key` (QUOTE); the generator's notion of "consistent" is cross-checked against the
-theorems' hypotheses `ConsistentCls` / `ConsistentTD` (CONSISTENT).
+theorems' hypotheses `ConsistentCls` / `ConsistentTD` (CONSISTENT); wherever the hypotheses of the nested theorems
+(`gconf`, op HOOKCONF) hold the real round trip must succeed, and the fraction of cases inside is recorded.
 """
 from __future__ import annotations
 
@@ -260,6 +261,8 @@ def one_world(chk, drv, HG, g, stream, corr_fail, n_inst, only_last=False):
             if gen.lookalike_hazard(x):
                 chk.unmodelled += 1
                 continue
+            if c["kind"] == "td" and x[0] == "d":
+                missing_required(chk, S, g, ci, ty, x, stream, corr_fail)
             ru = S.impl_un(ty, xv)
             rs = S.impl_st(ty, ru[-1]) if ru[0] in ("ok", "unrep") else None
             case = {"stream": stream, "gworld": g, "class": ci, "ty": ty, "x": x, "f24_classes": f24, "f25_classes": f25}
@@ -288,6 +291,14 @@ def one_world(chk, drv, HG, g, stream, corr_fail, n_inst, only_last=False):
                               dict(case, **facts))
             if bad:
                 continue
+            # ---- scope of the nested theorems: where the model says the hypotheses of C09_roundtrip_nested hold
+            # (consistent table, value conforming at every depth), the real round trip must succeed
+            rc = S.model_conf(ty, x)
+            chk.note("nested-theorem-hypotheses:" + {"1": "hold", "0": "not-held"}.get(rc, rc))
+            if rc == "1" and (rs is None or rs[0] == "err"):
+                corr_fail.append((dict(case, op="HOOKCONF"), "round trip failed: " + (repr(rs[1])[:120] if rs else ru[0]),
+                                  "gconf holds"))
+                continue
             # ---- correspondence: unstructure (dict with key order), the key specification, structure
             a = H.impl_reply(S, ru)
             b = H.model_reply(S.model_un(ty, x))
@@ -296,6 +307,8 @@ def one_world(chk, drv, HG, g, stream, corr_fail, n_inst, only_last=False):
                 continue
             if a[0] == "err":
                 a = ("err",)       # an unstructure hook that raises has no further observable
+            if b[0] == "err":
+                b = ("err",)
             if a != b:
                 corr_fail.append((dict(case, op="HOOKUN"), a, b))
                 continue
@@ -322,6 +335,36 @@ def one_world(chk, drv, HG, g, stream, corr_fail, n_inst, only_last=False):
                         chk.unmodelled += 1
                         continue
                     corr_fail.append((dict(case, op="HOOKST"), a, b))
+
+
+def missing_required(chk, S, g, ci, ty, x, stream, corr_fail):
+    """outside the statement (the instance is not a value of the TypedDict): correspondence only.  The generated
+    unstructure hook reads a required key without a guard -> KeyError, unless no line is emitted for the key (identity
+    handler, no rename); the model says which (C09_td_keyerror)."""
+    c = g["classes"][ci]
+    req = [f["name"] for f in c["fields"] if f.get("required", True) and any(k == ("s", f["name"]) for k, _ in x[1])]
+    if not req:
+        return
+    name = chk.rng.choice(req)
+    x_bad = ("d", [(k, v) for k, v in x[1] if k != ("s", name)])
+    try:
+        xv = S.R.val(x_bad)
+    except Exception:  # noqa: BLE001
+        return
+    ru = S.impl_un(ty, xv)
+    a = H.impl_reply(S, ru)
+    b = H.model_reply(S.model_un(ty, x_bad))
+    if b[0] == "unmodelled" or a[0] == "unrep":
+        chk.unmodelled += 1
+        return
+    if a[0] == "err":
+        a = ("err",) if isinstance(ru[1], KeyError) else ("err", type(ru[1]).__name__)
+    if b[0] == "err":
+        b = ("err",)
+    chk.note("missing-required-key:" + ("KeyError" if a[0] == "err" else "unnoticed"))
+    if a != b:
+        corr_fail.append(({"stream": stream + "/missing-required-key", "gworld": g, "class": ci, "ty": ty, "x": x_bad, "op": "HOOKUN",
+                           "f24_classes": [], "f25_classes": []}, a, b))
 
 
 def fld(name, ty, dflt=None, init=True, required=True, alias=None):
@@ -386,6 +429,70 @@ def witnesses(chk, drv, HG, corr_fail):
             print(f"NOTE C09: known finding {fid} no longer reproduces on its witnesses (stale entry?)")
 
 
+def probe_omitted_unstructurable(chk):
+    """generation never fails (implementation only): a key / attribute that is omitted by `override(omit=True)` may have
+    a type the converter has no structure hook for (a Callable, a plain class) -- that is what people omit.  Both
+    templates must build the hooks, and must then agree on payloads (C09_genok's clause, on the code paths that look
+    handlers up)."""
+    import typing
+    from typing import Callable
+    from harness.realise import make_typeddict
+    from cattrs.gen import make_dict_structure_fn, make_dict_unstructure_fn, override
+    from cattrs.gen import typeddicts as td_gen
+    from cattrs import Converter
+
+    class Plain:  # no hook can be built for it
+        pass
+
+    rng = chk.rng
+    bad_types = [("Callable", Callable[[int], int]), ("plain-class", Plain)]
+    for kind in ("td", "attrs", "dc"):
+        for bname, bad in bad_types:
+            for _ in range(3):
+                n_ok = rng.randint(0, 2)
+                pos = rng.randint(0, n_ok)
+                required = rng.random() < 0.5
+                forbid = rng.random() < 0.5
+                names = ["a", "b", "c"][:n_ok]
+                order = names[:pos] + ["cb"] + names[pos:]
+                outcomes = {}
+                for detailed in (True, False):
+                    conv = Converter(detailed_validation=detailed)
+                    tag = f"{kind}/{bname}/pos{pos}/{'req' if required else 'opt'}/{'forbid' if forbid else 'plain'}/{'detailed' if detailed else 'fast'}"
+                    try:
+                        if kind == "td":
+                            cl = make_typeddict("PO", [(n, bad if n == "cb" else int, required if n == "cb" else True) for n in order], 0)
+                            u = td_gen.make_dict_unstructure_fn(cl, conv, cb=override(omit=True))
+                            s_ = td_gen.make_dict_structure_fn(cl, conv, _cattrs_forbid_extra_keys=forbid,
+                                                               _cattrs_detailed_validation=detailed, cb=override(omit=True))
+                        else:
+                            if kind == "attrs":
+                                cl = attrs.make_class("PO", {n: (attrs.field(type=bad, default=None, kw_only=True) if n == "cb"
+                                                                 else attrs.field(type=int, kw_only=True)) for n in order})
+                            else:
+                                cl = dataclasses.make_dataclass("PO", [((n, bad, dataclasses.field(default=None, kw_only=True)) if n == "cb"
+                                                                        else (n, int, dataclasses.field(kw_only=True))) for n in order])
+                            u = make_dict_unstructure_fn(cl, conv, cb=override(omit=True))
+                            s_ = make_dict_structure_fn(cl, conv, _cattrs_forbid_extra_keys=forbid,
+                                                        _cattrs_detailed_validation=detailed, cb=override(omit=True))
+                    except Exception as e:  # noqa: BLE001
+                        chk.violation(f"C09 oracle: hook generation failed for a class with an omitted key of an unstructurable type "
+                                      f"[{tag}]: {e!r}"[:400], {"check": "generation", "stream": "omitted-unstructurable", "case": tag})
+                        outcomes[detailed] = "generation-failed"
+                        continue
+                    payload = {n: i for i, n in enumerate(names)}
+                    try:
+                        v = s_(payload, cl)
+                        outcomes[detailed] = ("ok", repr(v if kind == "td" else attrs.asdict(v) if kind == "attrs" else dataclasses.asdict(v)))
+                    except Exception as e:  # noqa: BLE001
+                        outcomes[detailed] = ("err", type(e).__name__)
+                    chk.count("omitted-unstructurable:" + tag, nontrivial=True, sample={"stream": "omitted-unstructurable", "case": tag})
+                    chk.note("stream:omitted-unstructurable", "omitted-unstructurable:" + kind + "/" + bname)
+                if outcomes.get(True) != outcomes.get(False) and "generation-failed" not in outcomes.values():
+                    chk.violation(f"C09 oracle: the two templates disagree on a class with an omitted key [{kind}/{bname}]: {outcomes}",
+                                  {"check": "generation", "stream": "omitted-unstructurable", "case": f"{kind}/{bname}"})
+
+
 def clean_world(HG, **kw):
     """a consistent world outside the recorded regions F24 / F25 (so that those cannot mask anything else)"""
     for _ in range(50):
@@ -401,6 +508,7 @@ def run(chk: framework.Check):
     quick = chk.tier == "quick"
     corr_fail = []
     witnesses(chk, drv, HG, corr_fail)
+    probe_omitted_unstructurable(chk)
     n_hook, n_conv, n_any, n_deep, n_reg = (260, 110, 120, 80, 40) if quick else (2600, 1100, 1200, 800, 400)
     for _ in range(n_hook):
         one_world(chk, drv, HG, clean_world(HG, want="consistent"), "per-hook", corr_fail, 3)
